@@ -80,3 +80,46 @@ func tryReplay(eng *Engine, verif, repo string, o *Obligation, model map[string]
 	}
 	return false
 }
+
+type boundedEntry struct {
+	Property string `json:"property"`
+	Name     string `json:"name"`
+	Harness  string `json:"harness"`
+	Pkg      string `json:"pkg"`
+	Test     string `json:"test"`
+	What     string `json:"what"`
+}
+
+func loadBounded(verif string) []boundedEntry {
+	b, err := os.ReadFile(filepath.Join(verif, "bounded", "index.json"))
+	if err != nil {
+		return nil
+	}
+	var es []boundedEntry
+	json.Unmarshal(b, &es)
+	return es
+}
+
+// runBounded runs a bounded stand-in harness (a Go test injected into the package with -overlay) on the real code.
+func runBounded(verif, repo string, e boundedEntry, tier string) (bool, string) {
+	tmp, err := os.MkdirTemp("", "govc-bounded")
+	if err != nil {
+		return false, err.Error()
+	}
+	defer os.RemoveAll(tmp)
+	ov := map[string]map[string]string{"Replace": {filepath.Join(repo, e.Pkg, "zz_verif_bounded_test.go"): filepath.Join(verif, "bounded", e.Harness)}}
+	ob, _ := json.Marshal(ov)
+	ovPath := filepath.Join(tmp, "ov.json")
+	os.WriteFile(ovPath, ob, 0o644)
+	ctx, cancel := context.WithTimeout(context.Background(), 900*time.Second)
+	defer cancel()
+	cmd := exec.CommandContext(ctx, "go", "test", "-overlay", ovPath, "-vet=off", "-count=1", "-timeout", "800s", "-run", "^"+e.Test+"$", "./"+e.Pkg+"/")
+	cmd.Dir = repo
+	cmd.Env = append(os.Environ(), "GOFLAGS=-mod=mod", "GOPROXY=off", "GOSUMDB=off", "GOTOOLCHAIN=local", "VERIF_BOUND="+tier)
+	out, err := cmd.CombinedOutput()
+	text := string(out)
+	if len(text) > 4000 {
+		text = text[len(text)-4000:]
+	}
+	return err == nil && strings.Contains(text, "ok"), text
+}
